@@ -529,6 +529,16 @@ func (*CountingWindow).sendResult
   ensures a-batch-is-booked-once-as-sent-or-as-dropped-unless-the-window-is-stopping: (cw.sentCount - old(cw.sentCount)) + (cw.droppedCount - old(cw.droppedCount)) + (ghost(dones) - old(ghost(dones))) == 1
   ensures it-is-booked-as-sent-exactly-when-it-was-put-on-the-output-channel: cw.sentCount - old(cw.sentCount) == ghost(sends) - old(ghost(sends)) && cw.sentCount >= old(cw.sentCount) && cw.droppedCount >= old(cw.droppedCount)
 
+// a counting window is cut by its count alone: the manual trigger of the Window interface does nothing to it (a key with
+// fewer than N rows never produces a result), and neither does the global window's
+func (*CountingWindow).Trigger
+  props C09 C04
+  ensures the-manual-trigger-is-a-no-op-no-buffer-is-touched-no-batch-cut: true
+
+func (*GlobalWindow).Trigger
+  props C17 C04 C12
+  ensures the-manual-trigger-is-a-no-op-no-group-is-touched-no-result-produced: true
+
 func (*CountingWindow).createSlot
   props C09 C04
   ensures result == nil || fresh(result)
